@@ -52,3 +52,224 @@ PROPS = {
                 assumptions=["the bloom filter has no false negatives between clears (its answers are logged and replayed as an oracle)",
                              "u64 hashes and seeds"]),
 }
+
+
+# ---------------------------------------------------------------------------------------------------------------------
+# schedule-based properties
+
+import corr
+import gen
+import monitors
+import json as _json
+
+SEC = 1000000000
+
+
+def corpus_for(pid):
+    path = os.path.join(CORPUS, pid + ".json")
+    out = []
+    if os.path.exists(path):
+        out = _json.load(open(path))
+    shared = os.path.join(CORPUS, "shared.json")
+    if os.path.exists(shared):
+        out = out + [dict(s, name=pid + "_" + s["name"]) for s in _json.load(open(shared))]
+    return out
+
+
+def nontrivial(sched, recs):
+    """at least one accepted put and at least one of eviction / sweep removal / upsert / delete / shutdown"""
+    accepted = any(1 in r["acks"] for r in recs)
+    other = False
+    prev = []
+    for r in recs:
+        p = r["ev"].split()
+        keys = [e[0] for e in r["snap"]["store"]]
+        if p[0] in ("worker", "sweep") and not r["skipped"] and len(keys) < len(prev) and not (p[0] == "worker" and False):
+            other = True
+        if p[0] == "call" and p[2] in ("upsert", "delete", "shutdown") and not r["skipped"]:
+            other = True
+        prev = keys
+    return accepted and other
+
+
+def distribution(schedules, impl):
+    ev_kinds, statuses, rets = {}, {}, {}
+    states = dict(evictions=0, sweep_removals=0, parked=0, panics=0, expired_unswept_reads=0, soft_deleted=0, dead_roles=0)
+    for s in schedules:
+        recs = impl.get(s["name"], [])
+        prev_keys = set()
+        for r in recs:
+            if r["skipped"]:
+                ev_kinds["skipped"] = ev_kinds.get("skipped", 0) + 1
+                continue
+            p = r["ev"].split()
+            kind = p[0] if p[0] != "call" else "call:" + p[2]
+            ev_kinds[kind] = ev_kinds.get(kind, 0) + 1
+            keys = set(e[0] for e in r["snap"]["store"])
+            if p[0] == "worker" and len(prev_keys - keys) > 0 and r["oracle"]["pops"]:
+                states["evictions"] += len(prev_keys - keys)
+            if p[0] == "sweep":
+                states["sweep_removals"] += len(prev_keys - keys)
+            if r["ret"] and r["ret"][0] == 3:
+                states["parked"] += 1
+            if r["ret"] and r["ret"][0] == 4:
+                states["panics"] += 1
+            if any(e[4] for e in r["snap"]["store"]):
+                states["soft_deleted"] += 1
+            if any(e[3] != -1 and e[3] < r["now"] for e in r["snap"]["store"]):
+                states["expired_unswept_reads"] += 1
+            if any(v.startswith("dead") for v in r["roles"].values()):
+                states["dead_roles"] += 1
+            prev_keys = keys
+        if recs:
+            for a in recs[-1]["acks"]:
+                statuses[a] = statuses.get(a, 0) + 1
+    return dict(events=ev_kinds, final_ack_statuses=statuses, states=states)
+
+
+def sched_sample(s):
+    return dict(config={k: v for k, v in s["cfg"].items() if k != "seeds"}, events=s["events"][:14])
+
+
+def run_sched(ctx, pid, profiles, n_quick, n_thorough, extra=None, monitor_profiles=None):
+    """Generic: corpus + generated schedules on both sides, the property's monitor on the implementation traces, and a
+    directed implementation-only search when the tie or a proof is broken."""
+    binary, seed, tier = ctx["binary"], ctx["seed"], ctx["tier"]
+    n = n_quick if tier == "quick" else n_thorough
+    if ctx.get("replay"):
+        rp = _json.load(open(ctx["replay"]))
+        scheds = [dict(name="replay", cfg=rp.get("config") or rp["detail"]["schedule"]["cfg"], events=rp.get("events") or rp["detail"]["schedule"]["events"])]
+        corpus = []
+    else:
+        corpus = corpus_for(pid)
+        scheds = gen.generate(seed, n, profiles)
+    allsched = corpus + scheds
+    divs, impl, model = corr.correspond(binary, allsched, pid)
+    divergences = []
+    for d in divs:
+        divergences.append(dict(kind="schedule", component=d["component"], field=d["field"], schedule=dict(name=d["schedule"]["name"], cfg=d["schedule"]["cfg"], events=d["schedule"]["events"][: d["event_index"] + 1]),
+                                event_index=d["event_index"], event=d["event"], model=d["model"], impl=d["impl"]))
+    mon_scheds = allsched if monitor_profiles is None else corpus + [s for s in scheds if s.get("profile") in monitor_profiles]
+    failures = monitors.run_monitor(pid, mon_scheds, impl) if pid in monitors.MONITORS else []
+    searched = 0
+    if (divergences or not ctx["proof_ok"]) and not [f for f in failures if f["signature"] not in ctx.get("known_sigs", set())] and not ctx.get("replay"):
+        # directed search on the implementation alone: the diverging schedules' neighbourhood plus a fresh larger sample
+        more = gen.generate(seed + 7919, max(400, 2 * n), profiles)
+        impl2 = corr.run_impl(binary, more, pid + "_search")
+        searched = len(more)
+        sel = more if monitor_profiles is None else [s for s in more if s.get("profile") in monitor_profiles]
+        failures += monitors.run_monitor(pid, sel, impl2)
+    res = dict(divergences=divergences, failures=failures,
+               evaluations=sum(len(impl.get(s["name"], [])) for s in allsched),
+               distinct=len({sha(s["events"]) for s in allsched if nontrivial(s, impl.get(s["name"], []))}),
+               rule="corpus of %d directed schedules + %d generated phase-contiguous schedules (profiles %s; 15-70 events; keys 2-6; all put variants, all upsert shapes, "
+                    "delete, all seven reads, unawaited bursts, parked senders, worker steps, sweeps, drains, clock steps, polls, shutdown) run on the real cache and on the model, "
+                    "full state compared after every event; a schedule is non-trivial if it has an accepted put and at least one eviction, sweep removal, upsert, delete or shutdown; "
+                    "distinct = distinct event lists" % (len(corpus), len(scheds), ",".join(profiles)),
+               samples=[sched_sample(s) for s in scheds[:2]], traces=len(allsched),
+               extra=dict(distribution=distribution(allsched, impl), impl_only_search_schedules=searched))
+    if extra:
+        extra(ctx, res, allsched, impl)
+    return res
+
+
+def mk(pid, profiles, nq, nt, **kw):
+    return lambda ctx: run_sched(ctx, pid, profiles, nq, nt, **kw)
+
+
+PROPS.update({
+    "C01": dict(module="C01", run=mk("C01", ["general", "default_weights", "ttl", "queue1", "evict"], 250, 4000),
+                components=["weights", "admission", "api", "queue_worker", "store", "ticker"],
+                assumptions=["schedule class proved: all phase-contiguous schedules (one call / command / sweep / batch at a time; calls may be unawaited, callers may be parked); finer interleavings of the worker's check-then-add with sweeper subtractions: ledger model (Ledger.v) once built",
+                             "overflow-checking (debug) profile"]),
+    "C03": dict(module="C03", run=mk("C03", ["roomy", "awaited", "ttl"], 250, 4000), components=["store", "weights", "admission", "ticker", "api", "queue_worker", "time"],
+                assumptions=["partial: phase-contiguous schedules; 'no memory pressure' is stated per executed put (it fits the free space)"]),
+    "C04": dict(module="C04", run=mk("C04", ["general", "ttl", "awaited", "queue1"], 250, 4000), components=["store", "api", "queue_worker", "weights", "ticker"]),
+    "C05": dict(module="C05", run=mk("C05", ["general", "queue1", "ttl", "evict"], 250, 4000), components=["weights", "store", "api", "queue_worker", "ticker", "admission"]),
+    "C06": dict(module="C06", run=mk("C06", ["evict", "general"], 250, 4000), components=["admission", "weights", "sketch", "tinylfu", "store"]),
+    "C07": dict(module="C07", run=mk("C07", ["general", "ttl", "awaited"], 250, 4000), components=["store", "api", "time", "queue_worker"]),
+    "C08": dict(module="C08", run=mk("C08", ["general", "ttl", "roomy"], 250, 4000), components=["store", "api", "ticker", "weights", "time", "queue_worker"]),
+    "C09": dict(module="C09", run=mk("C09", ["ttl", "general"], 250, 4000), components=["store", "time", "api", "ticker"]),
+    "C10": dict(module="C10", run=mk("C10", ["ttl", "general"], 250, 4000), components=["ticker", "weights", "store", "api", "time"]),
+})
+
+
+def run_C12(ctx):
+    import random
+    import ackcorr
+    binary, seed, tier = ctx["binary"], ctx["seed"], ctx["tier"]
+    rng = random.Random(seed)
+    if tier == "quick":
+        cases = ackcorr.sequential_cases(2, finals=(1, 5)) + ackcorr.concurrent_cases(rng, 400, 3)
+        exhaustive = "every placement of the completer's 3 steps among 1 and 2 sequential polls x 2 wakers x 2 final statuses (exhaustive), plus 400 random overlapping interleavings of 2-3 pollers"
+    else:
+        cases = ackcorr.sequential_cases(3, finals=(1, 2, 4, 5, 6)) + ackcorr.all_two_poller_interleavings() + ackcorr.concurrent_cases(rng, 4000, 3)
+        exhaustive = "every placement of the completer's 3 steps among 1..3 sequential polls x wakers x 5 final statuses, all 11550 interleavings of the completer with two overlapping pollers (both exhaustive), plus 4000 random overlapping interleavings"
+    divs, fails, stats = ackcorr.compare(binary, cases)
+    outcomes = stats["outcomes"]
+    return dict(divergences=divs[:5], failures=fails[:5], evaluations=len(cases), distinct=outcomes,
+                rule="interleavings of done() with polls on the real acknowledgement, stepped one shared-memory access at a time through schedule points "
+                     "(flag, status, waker slot; lock-aware): " + exhaustive + "; distinct_nontrivial counts distinct (poll results, wakes) outcomes observed",
+                samples=[dict(final=c["final"], pollers=c["pollers"], sched=c["sched"]) for c in cases[:2]], traces=len(cases),
+                extra=dict(stats={k: v for k, v in stats.items() if k != "outcomes"}, exhaustive=True))
+
+
+PROPS.update({
+    "C02": dict(module="C02", run=mk("C02", ["general", "reads", "ttl", "evict", "queue1"], 250, 4000), components=["store", "api", "queue_worker", "time"],
+                assumptions=["phase-contiguous schedules; every write uses a unique value token; hash functions identity / constant / mod 2 / multiplicative"]),
+    "C11": dict(module="C11", run=mk("C11", ["queue1", "general", "shutdown"], 250, 4000), components=["queue_worker", "api"],
+                assumptions=["that crossbeam's bounded channel is FIFO and that send blocks when full is exercised through parked senders (queue sizes 1,2,3,8), not proved"]),
+    "C12": dict(module="C12", run=run_C12, components=["ack"],
+                assumptions=["each access to status / waker slot is one atomic action because it happens under its parking_lot mutex; Release/Acquire on the flag is modelled as sequentially consistent"]),
+    "C13": dict(module="C13", run=mk("C13", ["shutdown", "queue1", "general"], 250, 4000), components=["api", "queue_worker", "pool", "store", "weights", "ticker"],
+                assumptions=["partial: 'shutdown() returns' and 'every acknowledgement completes' are proved as enabledness/progress facts of the model; that the worker and consumer threads keep being scheduled is assumed"]),
+    "C15": dict(module="C15", run=mk("C15", ["reads", "evict", "general"], 250, 4000), components=["pool", "stats", "tinylfu", "api"],
+                assumptions=["partial: 'never blocks' is enabledness in the model; that crossbeam's select!{send, default} does not block is exercised with a gated (stalled) and an exited consumer, not proved"]),
+    "C16": dict(module="C16", run=mk("C16", ["general", "reads", "ttl", "evict"], 250, 4000), components=["stats", "stats.hit_ratio", "store", "weights", "queue_worker", "api", "admission"]),
+})
+
+
+def shrink_failure(binary, pid, failure, budget=60):
+    """Delta-debugging on the event list of a failing history: keeps removing chunks while the property's monitor still
+    reports the same cause signature on the implementation."""
+    if pid not in monitors.MONITORS:
+        return failure
+    sig = failure["signature"]
+    cfg = failure["config"]
+    events = list(failure["events"])
+    runs = [0]
+
+    def still_fails(evs):
+        runs[0] += 1
+        sched = dict(name="shrink", cfg=cfg, events=evs)
+        impl = corr.run_impl(binary, [sched], "shrink_%s" % pid)
+        fs = monitors.run_monitor(pid, [sched], impl)
+        hit = [f for f in fs if f["signature"] == sig]
+        return hit[0] if hit else None
+
+    best = failure
+    n = 2
+    while len(events) >= 2 and runs[0] < budget:
+        chunk = max(1, len(events) // n)
+        reduced = False
+        for start in range(0, len(events), chunk):
+            cand = events[:start] + events[start + chunk:]
+            if not cand:
+                continue
+            hit = still_fails(cand)
+            if runs[0] >= budget:
+                break
+            if hit:
+                events = list(hit["events"]) if hit.get("events") else cand
+                best = hit
+                n = max(n - 1, 2)
+                reduced = True
+                break
+        if not reduced:
+            if chunk == 1:
+                break
+            n = min(len(events), n * 2)
+    best = dict(best)
+    best["shrunk_from_events"] = len(failure["events"])
+    best["shrink_runs"] = runs[0]
+    return best
